@@ -118,7 +118,8 @@ Eq(D1, D2) == Bag(D1) = Bag(D2)
 VEq(rec) ==
     LET D1 == DsOfJson(rec.a)  D2 == DsOfJson(rec.b)
         exp == Eq(D1, D2)
-    IN IF ~(IsDataset(D1) /\ IsDataset(D2)) THEN <<"skip", "input-outside-domain">>
+    IN IF rec.out = "setup-failed" THEN <<"skip", "setup-failed">>
+       ELSE IF ~(IsDataset(D1) /\ IsDataset(D2)) THEN <<"skip", "input-outside-domain">>
        ELSE IF rec.out # "ok" THEN <<"viol", "C17:equality-fails">>
        ELSE IF (rec.ab = 1) # exp THEN <<"viol", "C17:equality">>
        ELSE IF rec.ab # rec.ba THEN <<"viol", "C17:symmetry">>
